@@ -480,6 +480,14 @@ def verify(S):
             ctx.explore(fn)
         except Undecided as u:
             S.undecided.append("%s: %s" % (name, u))
+    # the membership query (its answer must be a function of the view alone, whatever happened before): C09's contract
+    if not S.only or 'sky_within' in S.only:
+        from contracts import c09
+        ctx = Ctx(S, "regions.Region.sky_within")
+        try:
+            ctx.explore(c09.t_sky_within)
+        except Undecided as u:
+            S.undecided.append("regions.Region.sky_within: %s" % u)
     # canary
     ctx = Ctx(S, "regions.Region.union")
 
